@@ -98,7 +98,9 @@ fn contains(hay: &[u8], needle: &[u8]) -> bool {
 fn connect_from(src: Ipv4Addr, addr: SocketAddr) -> Option<std::net::TcpStream> {
     // std has no bind-before-connect: use libc through socket2-free plain calls
     unsafe {
-        let fd = libc::socket(libc::AF_INET, libc::SOCK_STREAM, 0);
+        // close-on-exec: an `openssl s_client` child spawned later must not inherit this socket (the connection would
+        // stay open after the harness closed it, until that child exits)
+        let fd = libc::socket(libc::AF_INET, libc::SOCK_STREAM | libc::SOCK_CLOEXEC, 0);
         if fd < 0 {
             return None;
         }
